@@ -7,6 +7,10 @@
 size_t g_hfree_at, g_delete_n;
 #include "src/heap.c"
 #include "contracts/heap_ops.h"
+#define VC_ARENA_MEMID_SUIT_CONTRACT
+#include "contracts/heap_suit.h"
+/* C15: the heap-level suitability test used by every adoption path (segment.c) against the arena-level truth table (enforced on arena.c) */
+void h_heap_suitable(void) { mi_heap_t* h = malloc(sizeof(mi_heap_t)); __CPROVER_assume(h != NULL); mi_memid_t memid; bool r = _mi_heap_memid_is_suitable(h, memid); VC_REACH(); }
 void h_absorb(void) { g_w = vc_nondet_size("g_w"); mi_heap_t* a; mi_heap_t* b; mi_heap_absorb(a, b); VC_REACH(); }
 void h_delete(void) { mi_heap_t* h; mi_heap_delete(h); VC_REACH(); }
 void h_destroy(void) { mi_heap_t* h; mi_heap_destroy(h); VC_REACH(); }
